@@ -5,5 +5,5 @@ pub mod util;
 pub mod drive;
 pub mod irdump;
 pub mod allowmodel;
-pub mod cgen;
+pub mod allowgen;
 pub mod inventory;
